@@ -199,6 +199,9 @@ def decide_by_assignments(test, events):
         is_none = True
     elif isinstance(last, ast.Call) and isinstance(last.func, ast.Name) and last.func.id[:1].isupper():
         is_none = False
+    elif isinstance(last, ast.Call) and ast.unparse(last.func) in ("int", "len", "int.from_bytes", "bytes", "str",
+                                                                   "convert_to_integer_from_bytes"):
+        is_none = False          # these never return None
     else:
         return None
     res = (is_none == want_none)
